@@ -21,6 +21,8 @@ PROPS = ['Props/C12.v']
 
 def gen_case(rng, idx):
     kind = rng.random()
+    if idx in (7, 9):
+        kind = 0.25          # always at least two NUL-byte contents
     if kind < 0.08:
         data = b''
     elif kind < 0.16:
@@ -34,6 +36,10 @@ def gen_case(rng, idx):
         for _ in range(rng.randint(1, 3)):
             data[rng.choice([5, 700, 4090, 4100, 6000, 8100, 8200]) %
                  len(data)] = 0
+        if idx == 7:
+            data[6000 % len(data)] = 0     # beyond one buffer, within two
+        if idx == 9:
+            data[700 % len(data)] = 0
         data = bytes(data)
     elif kind < 0.40:
         # carriage returns: CRLF line ends and lone CRs inside lines
